@@ -1142,6 +1142,20 @@ def mon_c20_re(spec, run):
 MONITORS["C20re"] = mon_c20_re
 
 
+def mon_c20_api(spec, run):
+    """the log as handed out by the YncaApi object: judged against the wire of the connection that is up when it is requested (the object
+    may have been used for connection_check() before — those were connections of their own)"""
+    tr = run.trace
+    opens = [e["seq"] for e in tr if e["k"] == "open"]
+    if not opens:
+        return []
+    cur = [e for e in tr if e["seq"] >= opens[-1]]
+    return [(k, "log requested from the YncaApi object: " + w) for k, w in MONITORS["C20"](spec, _SubRun(run, cur))]
+
+
+MONITORS["C20api"] = mon_c20_api
+
+
 def mon_c17_two(spec, run):
     """two checks of two receivers at the same time: the first one judged as usual on its own events; the second one's result must be its own
     receiver's model name and zones (replies are fast on both)"""
